@@ -190,9 +190,9 @@ def plan(ctx: Ctx, prop: str):
         sanity = [("merge_without_dedupe", c(Splits=FS({"train"}), MaxSessions=2, MaxWrites=1, Dedupe=False),
                    "NoSessionFails")]
         sims = [sim_tree(False), sim_tree(True)]
-        if not q:
-            sims.append(("sim_tree_no_checksums", c(MaxSessions=3, MaxWrites=3, Hashing=False), 300, 40,
-                         [("fb", "", ()), ("npz", "", ()), ("tfrec", "", ())][:2], 2))
+        # datasets without checksum algorithms (hash_checksum_algorithms=()): the metadata then carries no digests
+        sims.append(("sim_tree_no_checksums", c(MaxSessions=3, MaxWrites=3, Hashing=False), 12 if q else 300, 40,
+                     [("fb", "", ()), ("npz", "", ()), ("tfrec", "", ())][:2], 2))
     elif prop == "C10":
         mc = [shard5] + ([] if q else [shard23]) + [
             ("shard_eps1", c(Splits=FS({"train"}), FillerDirs=ROOT_ONLY, MaxK=1, MaxSessions=1, MaxWrites=4, MDs=MD3,
